@@ -191,14 +191,20 @@ def r_opt(chk, units, scope=None):
     return len(seen)
 
 
-def _tests_var(u, cond, var):
+def _tests_var(u, cond, var, f=None, depth=0):
     """polarity: True if `cond` true implies var has a value; False if cond false implies it; None otherwise."""
     e = strip(cond)
     if e is None:
         return None
     if e["k"] == "UnaryOperator" and e.get("op") == "!":
-        r = _tests_var(u, kids(e)[0], var)
+        r = _tests_var(u, kids(e)[0], var, f, depth)
         return (not r) if r is not None else None
+    if e["k"] == "DeclRefExpr" and f is not None and depth < 3:
+        # a named test: `const bool inThis = opt.has_value(); ... if (inThis)` (const local, so it still says what it said)
+        for n in f.all_nodes():
+            if n["k"] == "VarDecl" and n["id"] == e["d"] and u.types[n["t"]] == "const bool" and kids(n):
+                return _tests_var(u, kids(n)[0], var, f, depth + 1)
+        return None
     if e["k"] == "CXXMemberCallExpr":
         ci = call_info(u, e)
         if ci and ci.decl is not None and ci.decl["name"] in ("operator bool", "has_value") and ci.obj is not None:
@@ -206,7 +212,7 @@ def _tests_var(u, cond, var):
             if o["k"] == "DeclRefExpr" and o["d"] == var:
                 return True
     if e["k"] in ("ImplicitCastExpr", "CXXStaticCastExpr") and kids(e):
-        return _tests_var(u, kids(e)[0], var)
+        return _tests_var(u, kids(e)[0], var, f, depth)
     return None
 
 
@@ -221,7 +227,7 @@ def _dominated_by_test(u, f, g, node, var):
         c = g.cond(b)
         if c is None or len(g.succ[b]) != 2:
             continue
-        pol = _tests_var(u, c, var)
+        pol = _tests_var(u, c, var, f)
         if pol is None:
             continue
         good = g.blocks[b]["succ"][0] if pol else g.blocks[b]["succ"][1]
